@@ -7,6 +7,7 @@ import (
 	"math/rand"
 	"regexp"
 	"strings"
+	"time"
 
 	"github.com/aundis/formula"
 	"github.com/ericlagergren/decimal"
@@ -106,7 +107,8 @@ func evaluate(src string, data val.V, opts *evalOpts) *EvalOut {
 		out.Map = m
 		r.SetThis(m)
 	}
-	ctx := context.Background()
+	ctx, release := hostCtx(src)
+	defer release()
 	if opts != nil && opts.ctx != nil {
 		ctx = opts.ctx
 	}
@@ -124,6 +126,42 @@ func evaluate(src string, data val.V, opts *evalOpts) *EvalOut {
 		}
 	}
 	return out
+}
+
+type hostCtxKey struct{}
+
+// hostCtx gives the evaluation the kind of context a host really passes (decided by the formula text, so that a
+// case replays identically): the background context, a cancellable one, one with a (far) deadline, one carrying
+// values. None of them is ever cancelled while the evaluation runs.
+func hostCtx(src string) (context.Context, func()) {
+	if strings.Contains(src, "ctx") {
+		// the formula can see the context (keyword ctx): keep it the same value in every evaluation that is compared
+		return context.Background(), func() {}
+	}
+	switch core.Hash64(src) % 4 {
+	case 1:
+		return context.WithCancel(context.Background())
+	case 2:
+		return context.WithTimeout(context.Background(), 6*time.Hour)
+	case 3:
+		ctx, cancel := context.WithCancel(context.WithValue(context.Background(), hostCtxKey{}, "request-17"))
+		return ctx, cancel
+	}
+	return context.Background(), func() {}
+}
+
+// hostCtxFor is hostCtx for a tree whose text is not at hand.
+func hostCtxFor(sc *formula.SourceCode) (context.Context, func()) {
+	uses := false
+	obs.Walk(sc.Expression, func(e formula.Expression) {
+		if l, ok := e.(*formula.LiteralExpression); ok && l.Token == formula.SK_CtxKeyword {
+			uses = true
+		}
+	})
+	if uses {
+		return context.Background(), func() {}
+	}
+	return hostCtx(fmt.Sprint(len(sc.Text)))
 }
 
 var sideEffectRE = regexp.MustCompile(`(^|[^=!<>])=([^=]|$)|\bnow\b|\btoDay\b|\brec\(|\bt\(|\bhostfn\(`)
@@ -244,6 +282,7 @@ func StdData(r *rand.Rand) val.V {
 		{K: "st", V: val.Struct(val.KV{K: "A", V: val.Int("int", 3)}, val.KV{K: "S", V: str()}, val.KV{K: "priv", V: val.Int("int", 1)}, val.KV{K: "M", V: val.Map(val.KV{K: "k", V: num()})})},
 		{K: "pst", V: val.PStruct(val.KV{K: "A", V: val.Int("int", 4)}, val.KV{K: "S", V: str()})},
 		{K: "nilp", V: val.V{K: "nilptr"}}, {K: "nd", V: val.V{K: "nildec"}},
+		{K: "se", V: val.V{K: []string{"selfembed", "selfembed1"}[r.Intn(2)], S: "node"}}, {K: "mu", V: val.V{K: "mutual", S: "left"}},
 		{K: "ra", V: val.V{K: "rowA", M: []val.KV{{K: "Qty", V: val.Int("int", 7)}, {K: "Price", V: val.Int("int", 3)}, {K: "Note", V: val.Str("n")}}}},
 		{K: "rb", V: val.V{K: "rowB", M: []val.KV{{K: "Qty", V: val.Int("int", 2)}, {K: "Price", V: val.Int("int", 50)}}}},
 		{K: "z.k", V: val.Int("int", 42)}, {K: "undefinedname.name", V: val.Str("flat")}, {K: "m.missing", V: val.Int("int", 7)}, {K: "nilp.k", V: val.Str("flat2")}, {K: "$v.k", V: val.Int("int", 9)},
@@ -259,9 +298,9 @@ func StdData(r *rand.Rand) val.V {
 	return val.Map(kv...)
 }
 
-var stdNames = []string{"n0", "n1", "s0", "s1", "b0", "z", "m", "tm", "arr", "strs", "ms", "st", "pst", "nilp", "nd", "ra", "rb", "t0", "d0", "u0", "x0", "x1", "x2", "odd", "odd2", "undefinedname", "$v", "$w"}
+var stdNames = []string{"n0", "n1", "s0", "s1", "b0", "z", "m", "tm", "arr", "strs", "ms", "st", "pst", "nilp", "nd", "ra", "rb", "t0", "d0", "u0", "x0", "x1", "x2", "odd", "odd2", "undefinedname", "$v", "$w", "se", "mu"}
 var stdFuncs = []string{"fid", "ferr", "fsum", "fcat", "fnums", "fstrs", "fctx", "fnoret", "fone", "fpanic", "fanys", "ftime", "fmap", "fnildec", "fnilptr", "undefinedfn", "n0", "s0", "m", "z"}
-var stdMembers = []string{"k", "name", "b", "f", "A", "S", "M", "priv", "Z", "missing", "Qty", "Price", "Note"}
+var stdMembers = []string{"k", "name", "b", "f", "A", "S", "M", "priv", "Z", "missing", "Qty", "Price", "Note", "Name", "L", "R", "SelfNode", "MutRight"}
 
 // safeBuiltins: every builtin except lpad/rpad (whose length argument is generated
 // structurally, bounded by 10^6 as the statement says).
